@@ -314,6 +314,7 @@ func C13(r *core.Run) {
 		{"tests:\n  - test_id: 7\n    desc: x\n  - test_id: 9\n", "tests:\n  - test_id: 1\n    desc: x\n  - test_id: 2\n"},
 		{"tests:\n  - test_id: 1\n\n\n", "tests:\n  - test_id: 1\n"},
 		{"tests:\n  - test_title: 920100-4", "tests:\n  - test_title: FILE-1\n"},
+		{"tests:\n  - test_id: 5\n    test_title: 1-9\n  - test_id: 5\n    test_title: 1-9\n", "tests:\n  - test_id: 1\n    test_title: FILE-1\n  - test_id: 2\n    test_title: FILE-2\n"},
 	}
 	c13Names := []string{"REQUEST-123-TEST/123456.yaml", "REQUEST-123-TEST/123457.yml", "REQUEST-223-OTHER/223456.yaml"}
 	alls, d3 := core.Parallel(r, "all", spec, r.Workers, func(in in, shard, n int, emit func(allRes)) {
@@ -374,7 +375,7 @@ func C13(r *core.Run) {
 				}
 				for i, nme := range c13Names {
 					b, _ := os.ReadFile(filepath.Join(wd, "tests/regression/tests", nme))
-					want := strings.Replace(c13States[st[i]][1], "FILE", filepath.Base(nme)[:6], 1)
+					want := strings.ReplaceAll(c13States[st[i]][1], "FILE", filepath.Base(nme)[:6])
 					if string(b) != want {
 						bad("%s is %q, expected %q", nme, b, want)
 					}
